@@ -107,6 +107,8 @@ CHECKS = {
             {'engine': 'faultcall', 'config': 'asan', 'variant': 'base', 'runs': [10000, 600000]},
             {'engine': 'faultcall', 'config': 'asan32', 'variant': 'base', 'runs': [5000, 300000]},
             {'engine': 'faultcall', 'config': 'asanfast', 'variant': 'base', 'runs': [4000, 200000]},   # SAFE_FAST: the fast editions
+            {'engine': 'faultcall', 'config': 'asan', 'variant': 'badmem', 'runs': [5000, 300000]},    # the refused inputs (C09's variants), judged for memory safety only
+            {'engine': 'faultcall', 'config': 'asan32', 'variant': 'badmem', 'runs': [2000, 100000]},
             {'engine': 'streamsim', 'config': 'asan', 'runs': [100000, 3000000]},
             {'engine': 'streamsim', 'config': 'asan32', 'runs': [50000, 1500000]},
             {'engine': 'mtsim', 'config': 'asan', 'variant': 'exit', 'runs': [20000, 1000000]},
@@ -188,12 +190,15 @@ CHECKS = {
             {'engine': 'streamsim', 'config': 'asan32', 'runs': [100000, 2000000]},
             {'engine': 'streamsim', 'config': 'plain', 'runs': [400000, 40000000]},
             {'engine': 'streamsim', 'config': 'release', 'runs': [400000, 40000000]},
+            {'engine': 'streamsim', 'config': 'release', 'variant': 'huge', 'runs': [16, 320]},
         ],
         'rule': ('a case is one simulated stream for one of 21 Start/Step/Get bundles: message of 0..~4 internal blocks, cut into 1..7 '
                  'fragments by the simulated source (boundaries biased to block-1/block/block+1/0, empty fragments where the header allows), '
                  'with mid-stream Get/Verify probes and state migrations (copy to a fresh exact-size block, old block scribbled and released) '
                  'interleaved; distinct = distinct (bundle, sequence of (offset mod block, length mod block, blocks), probe kinds, migrations) signatures; '
-                 'a run with a single whole-message delivery and no event is still counted (it is the degenerate split)'),
+                 'a run with a single whole-message delivery and no event is still counted (it is the degenerate split). '
+                 'Leg huge: one fragment of 2^29..2^30+ octets in a single call (hash, HMAC, MAC, bash hash, DWP/CHE StepI/StepA, bash automaton absorb) '
+                 'against the same octets in pieces of at most 2^28 octets and against the one-shot function'),
         'real': REAL_ALL,
         'stub': ['the data source (fragmentation), the caller process that checkpoints/relocates states'],
         'assumptions': [
@@ -272,7 +277,8 @@ MANIFEST_TEXT = {
     'C07': {
         'text': ('Rider check, partial by construction: fault-free simulated calls of ~130 high-level functions, 78 arithmetic-layer and helper descriptors (every function of include/bee2/math with a caller-owned stack, the stack-free ww/zz/codec helpers), 21 streaming bundles and the four bake/BAUTH protocols on the simulated heap with '
                  'exact-size buffers, states, stacks and blobs (H-blob), ASan + memory-related UBSan, library ASSERTs on, in the 64-bit and 32-bit word '
-                 'configuration, each call repeated under different seeded heap and C-stack garbage and under the stale image of a previous computation, with identical results required.'),
+                 'configuration, each call repeated under different seeded heap and C-stack garbage and under the stale image of a previous computation, with identical results required. '
+                 'Leg badmem: the refused inputs of C09 (malformed, truncated in a buffer of exactly the shorter size, out of range) executed for memory safety only.'),
         'design_ref': 'DESIGN.md §3 C07',
         'note': 'Decides only the environment half of C07 (where memory comes from, its exact size, its prior content); it is not an operand sweep of every public entry point.',
         'technique': 'deterministic simulation: exact-size simulated heap + seeded garbage / stale-image differential under sanitizers',
